@@ -234,20 +234,21 @@ func cliSuite(full bool) hlib.Suite {
 		dur := []string{"--max-duration 300ms", "--max-duration 0s", "--max-duration -1s", "--max-duration x"}
 		dist := []string{"", "--distribution none", "--distribution random", "--distribution bogus"}
 		jit := []string{"", "--jitter 50", "--jitter -1", "--jitter 100", "--jitter x"}
+		distAll := dist // negative rates only hurt the random distribution: always included where rates can be negative
 		if !full {
 			conc, jit = conc[:3], jit[:2]
 			dist = []string{"", "--distribution none", "--distribution bogus"}
 		}
 		prod("constant", []string{"", "--rate 1/100ms", "--rate 0/s", "--rate 5/0s", "--rate -1/s", "--rate x", "--rate 5/", "--rate 5/.5s", "--rate 2/0.5s"}, dist, jit, conc, dur)
-		prod("staged", []string{"", "--stages 0s:1,1s:1", "--stages 1s:0", "--stages x", "--stages 1s", "--stages -1s:1", "--stages 1s:-1", "--stages ,"},
-			[]string{"", "--iterationFrequency 100ms", "--iterationFrequency 0s", "--iterationFrequency -1s", "--iterationFrequency 10ms"}, dist, conc[:2], dur[:2])
+		prod("staged", []string{"", "--stages 0s:1,1s:1", "--stages 1s:0", "--stages x", "--stages 1s", "--stages -1s:1", "--stages 1s:-1", "--stages ,", "--stages 0s:-3,1s:-3"},
+			[]string{"", "--iterationFrequency 100ms", "--iterationFrequency 0s", "--iterationFrequency -1s", "--iterationFrequency 10ms", "--iterationFrequency 200ms"}, distAll, conc[:2], dur[:2])
 		prod("ramp", []string{"", "--start-rate 0/s --end-rate 2/s", "--start-rate 1/100ms --end-rate 3/100ms", "--start-rate 1/s --end-rate 2/m", "--start-rate x", "--start-rate 1/0s --end-rate 2/0s", "--end-rate 5/"},
 			[]string{"", "--ramp-duration 1s", "--ramp-duration 0s", "--ramp-duration -1s", "--ramp-duration 50ms"}, dist, conc[:2], dur[:2])
 		prod("gaussian", []string{"", "--volume 100", "--volume 0", "--volume -5"},
-			[]string{"--repeat 1m --iteration-frequency 1s --peak 30s --standard-deviation 10s", "--repeat 1m --iteration-frequency 0s --peak 30s --standard-deviation 10s",
+			[]string{"--repeat 1m --iteration-frequency 1s --peak 30s --standard-deviation 10s", "--repeat 1m --iteration-frequency 200ms --peak 0s --standard-deviation 1h", "--repeat 1m --iteration-frequency 0s --peak 30s --standard-deviation 10s",
 				"--repeat 0s --iteration-frequency 1s --peak 0s --standard-deviation 10s", "--repeat 1m --iteration-frequency 1s --peak 30s --standard-deviation 0s",
 				"--repeat 1m --iteration-frequency -1s --peak 30s --standard-deviation 10s", "--repeat 1m --iteration-frequency 2m --peak 30s --standard-deviation 10s"},
-			[]string{"", "--weights 1,2", "--weights x", "--weights 0,0", "--peak-rate 5/s", "--peak-rate 5/"}, dist[:2], dur[:1])
+			[]string{"", "--weights 1,2", "--weights x", "--weights 0,0", "--peak-rate 5/s", "--peak-rate 5/", "--peak-rate 5/0s"}, distAll[:3], dur[:1])
 		prod("users", conc, dur)
 		sort.SliceStable(cases, func(i, j int) bool { return len(cases[i].flags) < len(cases[j].flags) })
 		for _, c := range cases {
